@@ -480,7 +480,9 @@ func (l *Linter) LintFile(path string, project *Project) ([]*Error, error) {
 	}
 
 	if l.errFmt != nil {
-		l.errFmt.PrintErrors(l.out, errs, src)
+		if err := l.errFmt.PrintErrors(l.out, errs, src); err != nil {
+			return nil, err
+		}
 	} else {
 		l.printErrors(errs, src)
 	}
@@ -522,7 +524,9 @@ func (l *Linter) Lint(path string, content []byte, project *Project) ([]*Error, 
 		return nil, err
 	}
 	if l.errFmt != nil {
-		l.errFmt.PrintErrors(l.out, errs, content)
+		if err := l.errFmt.PrintErrors(l.out, errs, content); err != nil {
+			return nil, err
+		}
 	} else {
 		l.printErrors(errs, content)
 	}
